@@ -316,12 +316,19 @@ impl Gener {
                 }
             }
         }
-        if rng.chance(1, 8) {
-            let k = long_key(b'H', MAX_KEY);
-            if spec.cfg.persistent {
-                bad_keys.push(k);
-            } else {
-                keys.push(k);
+        // memory-only stores accept keys up to 100 KiB: lengths at and above 2^16 do not fit the record's 16-bit
+        // key-length field, which some size computations use (always present in memory-accounting programs)
+        let always = spec.focus == Focus::Mem && !spec.cfg.persistent;
+        for (fill, len, odds) in [(b'H', MAX_KEY, 3u64), (b'G', 65_536usize, 4), (b'F', 70_000usize, 6)] {
+            if always || rng.chance(1, odds) {
+                let k = long_key(fill, len);
+                if spec.cfg.persistent {
+                    if len == MAX_KEY {
+                        bad_keys.push(k);
+                    }
+                } else {
+                    keys.push(k);
+                }
             }
         }
         if spec.focus == Focus::Ts {
